@@ -46,7 +46,7 @@ fn case_strategy(tier: Tier) -> BoxedStrategy<BudgetCase> {
         prop::collection::vec(prop_oneof![5 => 0u8..160, 1 => 160u8..=255], 0..=120),
         prop::collection::vec(any::<u8>(), 0..=120),
     ];
-    (
+    let general = (
         kind,
         prop::collection::vec(prop::collection::vec(any::<bool>(), 1..=omax), 2..=tmax),
         schedule,
@@ -57,8 +57,29 @@ fn case_strategy(tier: Tier) -> BoxedStrategy<BudgetCase> {
             threads,
             schedule,
             observe,
-        })
-        .boxed()
+        });
+    // one caller against busy neighbours: a single withdrawal on a well-funded budget while two
+    // or three other threads keep writing (its compare-exchange loses again and again), under a
+    // uniformly random schedule
+    let crowded = (
+        prop_oneof![
+            (3usize..=6).prop_map(|max| Kind::Token { max, initial: max }),
+            (4usize..=6, 1usize..=2, 1usize..=2).prop_map(|(max, deposit, cost)| Kind::Aimd { min: 0, max, deposit, cost, factor10: 10 }),
+        ],
+        prop::collection::vec(prop::collection::vec(any::<bool>(), 3..=omax.max(4)), 2..=3),
+        prop::collection::vec(any::<u8>(), 40..=160),
+        prop_oneof![1 => Just(0u8), 2 => Just(255u8)],
+    )
+        .prop_map(|(kind, mut threads, schedule, observe)| {
+            threads.insert(0, vec![true]);
+            BudgetCase {
+                kind,
+                threads,
+                schedule,
+                observe,
+            }
+        });
+    prop_oneof![4 => general, 1 => crowded].boxed()
 }
 
 #[derive(Clone, Debug, Serialize)]
@@ -353,7 +374,7 @@ impl Property for C08 {
     }
     fn budget(&self, tier: Tier) -> (u32, usize) {
         match tier {
-            Tier::Quick => (20_000, 8),
+            Tier::Quick => (40_000, 8),
             Tier::Thorough => (1_000_000, 16),
         }
     }
@@ -384,7 +405,7 @@ impl Property for C08 {
         r
     }
     fn rule(&self) -> String {
-        "proptest-generated (budget kind and parameters: token bucket max 0-4 / initial <= max; AIMD min <= max <= 6, deposit 1-3, cost 1-3, factor 0-1), 2-4 logical threads x 1-4/5 operations (try_withdraw / deposit), and a schedule (choice list; preemption-bounded and uniformly random generators), and how often the monitor reads balance() in between (every step / every k-th / never). The real budget code runs on OS threads; every instrumented atomic operation is a scheduling point owned by the case. After every atomic step: grants x cost + balance <= initial + started deposits x amount, balance <= configured maximum; at quiescence the completed history must be linearizable (brute force, real-time order respected) against a sequential model - exact for the token bucket, balance-only with a free ceiling in [min,max] for AIMD - including the final balance. Non-trivial: some thread's operation completes while another thread is in the middle of an operation of which it has executed at least one atomic step; distinct by hash of the case".into()
+        "proptest-generated (budget kind and parameters: token bucket max 0-4 / initial <= max; AIMD min <= max <= 6, deposit 1-3, cost 1-3, factor 0-1), 2-4 logical threads x 1-4/5 operations (try_withdraw / deposit), and a schedule (choice list; preemption-bounded and uniformly random generators); one case in five is a single withdrawal on a well-funded budget next to two or three busy threads under a uniformly random schedule, and how often the monitor reads balance() in between (every step / every k-th / never). The real budget code runs on OS threads; every instrumented atomic operation is a scheduling point owned by the case. After every atomic step: grants x cost + balance <= initial + started deposits x amount, balance <= configured maximum; at quiescence the completed history must be linearizable (brute force, real-time order respected) against a sequential model - exact for the token bucket, balance-only with a free ceiling in [min,max] for AIMD - including the final balance. Non-trivial: some thread's operation completes while another thread is in the middle of an operation of which it has executed at least one atomic step; distinct by hash of the case".into()
     }
     fn assumptions(&self) -> Vec<String> {
         vec![
